@@ -249,7 +249,11 @@ func genCICase(c *rig.Ctx) CICase {
 	for _, n := range ciSchemaNames {
 		switch {
 		case n == "system-default" && c.Rng.Intn(5) > 0:
-			schemas = append(schemas, Schema{Name: rig.Hex(n), Strategy: rig.Hex(rig.Pick(c.Rng, []string{"", "local"})), Mi: i32(int32(c.Rng.Intn(3)))})
+			m := int32(c.Rng.Intn(3))
+			if c.Rng.Intn(10) == 0 { // an extreme starting value, resized in place later
+				m = rig.Pick(c.Rng, []int32{2147483647, 2147483646, 1 << 30})
+			}
+			schemas = append(schemas, Schema{Name: rig.Hex(n), Strategy: rig.Hex(rig.Pick(c.Rng, []string{"", "local"})), Mi: i32(m)})
 		case n != "system-default" && c.Rng.Intn(2) == 0:
 			schemas = append(schemas, genSchema(c, n))
 		}
